@@ -392,5 +392,8 @@ PROPS["C15"]["rules"] = PROPS["C15"]["rules"] + [rules_gr.rule_probe_tag]
 PROPS["C15"]["explanation"] += " (PROBETAG) a branch taken because an element of a given tag exists records that tag (the IP8 palette of an ungrouped 8-bit image in GR and DFR8)."
 PROPS["C09"]["rules"] = PROPS["C09"]["rules"] + [rules_gr.rule_probe_tag]
 
+PROPS["C09"]["rules"] = PROPS["C09"]["rules"] + [rules_gr.rule_axis_stride]
+PROPS["C09"]["explanation"] += " (AXISUSE) in the axis loops of GRreadimage and GRwriteimage an offset advanced once per iteration over count[A] takes its stride factor from stride[A]. (CRDRV, PROBETAG) see C15."
+
 NOT_APPLICABLE = {}
 
